@@ -3,16 +3,23 @@ From AV Require Import Lib.Base Model.Chan Model.Dispatch.
 (* the model's on_frame IS the table: for a registered channel and a frame the RPC layer does
    not claim, on_frame = dispatch by (expected_content, expected_dispatch) *)
 Theorem on_frame_by_table s c v f :
-  get_chan (s_chans s) c = Some v -> req_get (c_req v) (f_name f) = None ->
+  get_chan (s_chans s) c = Some v -> c_ret v = None -> req_get (c_req v) (f_name f) = None ->
   on_frame s c f = dispatch expected_content expected_dispatch s c v f.
 Proof.
-  intros Hc Hr. unfold on_frame, dispatch. rewrite Hc, Hr.
+  intros Hc Hn Hr. unfold on_frame, on_frame_plain, dispatch. rewrite Hc, Hn, Hr.
   destruct (f_name f); reflexivity.
 Qed.
 
 (* and a frame the RPC layer claims never reaches the table *)
 Theorem claimed_frames_bypass_table s c v f u fs :
-  get_chan (s_chans s) c = Some v -> req_get (c_req v) (f_name f) = Some u ->
+  get_chan (s_chans s) c = Some v -> c_ret v = None -> req_get (c_req v) (f_name f) = Some u ->
   resp_get (c_resp v) u = Some fs ->
   on_frame s c f = upd s c (with_rpc v (c_req v) (resp_set (c_resp v) u (fs ++ [f]))).
-Proof. intros Hc Hr Hs. unfold on_frame. now rewrite Hc, Hr, Hs. Qed.
+Proof. intros Hc Hn Hr Hs. unfold on_frame, on_frame_plain. now rewrite Hc, Hn, Hr, Hs. Qed.
+
+(* the content of a returned message is queued whoever is waiting for content frames: it is
+   never offered to the RPC layer *)
+Theorem return_content_bypasses_rpc s c v f lft r :
+  get_chan (s_chans s) c = Some v -> c_ret v = Some lft -> ret_content lft f = Some r ->
+  on_frame s c f = upd s c (with_inbound (with_ret v r) (c_inbound v ++ [f])).
+Proof. intros Hc Hn Hr. unfold on_frame. now rewrite Hc, Hn, Hr. Qed.
